@@ -522,7 +522,7 @@ class Mode:
 
 
 PURE_BUILTINS = {"hex", "getattr", "len", "isinstance", "id", "hasattr", "bool", "tuple", "frozenset", "min", "max", "abs", "callable", "type", "iter", "int"}
-SPEC_FUNCS = {"flat", "oldfield", "called", "listof", "intof", "after", "values", "entry", "implies", "old", "call", "call2", "all", "any", "no_dups", "seq", "setof", "filt", "addall", "cat", "forall", "exists",
+SPEC_FUNCS = {"tagall", "flat", "oldfield", "called", "listof", "intof", "after", "values", "entry", "implies", "old", "call", "call2", "all", "any", "no_dups", "seq", "setof", "filt", "addall", "cat", "forall", "exists",
               "is_tuple", "ite", "fresh", "contents", "keys", "dget", "dhas", "rng", "idof", "rev", "prefix", "isinst", "truth",
               "subseq_of", "perm", "count", "sorted_by", "index", "pair", "slice_adj", "typeis", "allocated", "ghost"}
 
@@ -913,7 +913,8 @@ def _patch_engine():
             return SV("v", L.sconcat(self.to_v(a), self.to_v(b)), "str")
         if isinstance(op, ast.Add) and (a.kind in ("seq", "tuple") or b.kind in ("seq", "tuple") or (self.is_listlike(a) and self.is_listlike(b))):
             return SV("seq", L.cat(self.as_seq(a, st), self.as_seq(b, st)))
-        if m.spec and self.is_setlike(a) and self.is_setlike(b):
+        if self.is_setlike(a) and self.is_setlike(b) and isinstance(op, (ast.BitOr, ast.BitAnd, ast.Sub, ast.BitXor)):
+            # also in code position: `a - b` on sets builds a new set = an immutable snapshot value of the current contents
             sa, sb = self.as_set(a, st), self.as_set(b, st)
             if isinstance(op, ast.BitOr):
                 return SV("set", self.def_set(lambda x: Or(Select(sa, x), Select(sb, x)), m.under))
@@ -1466,6 +1467,20 @@ def _patch_engine():
         return SV("v", L.sbox(L.app(L.app(L.sempty, a), b)), "tupleval")
     E.sf_pair = sf_pair
 
+    def sf_tagall(self, node, st, m):
+        """tagall(tag, s) = [pair(tag, x) for x in s]"""
+        tag = self.to_v(self.pev(node.args[0], st, m))
+        sq = self.as_seq(self.pev(node.args[1], st, m), st)
+        memo = self.__dict__.setdefault("_tag_memo", {})
+        key = tag.get_id()
+        if key not in memo:
+            M = self.fresh("tagmap", MapS)
+            x = Const("x", V)
+            self.extra_axioms.append(ForAll([x], Select(M, x) == L.sbox(L.app(L.app(L.sempty, tag), x)), patterns=[Select(M, x)]))
+            memo[key] = (M, tag)
+        return SV("seq", L.smap(memo[key][0], sq))
+    E.sf_tagall = sf_tagall
+
     def sf_listof(self, node, st, m):
         """listof(x): x read as a reference to a list object"""
         a = self.pev(node.args[0], st, m)
@@ -1573,6 +1588,27 @@ def _patch_engine():
         x = self.fresh("w", V)
         return sv_bool(ForAll([x], Not(And(Select(a, x), Select(b, x))), patterns=[Select(a, x), Select(b, x)]))
     E.pm_isdisjoint = pm_isdisjoint
+
+    def _pm_setop(self, recv, args, st, m, f):
+        sa, sb = self.as_set(recv, st), self.as_set(args[0], st)
+        return SV("set", self.def_set(lambda x: f(Select(sa, x), Select(sb, x)), m.under))
+
+    def pm_intersection(self, recv, args, node, st, m):
+        return self._pm_setop(recv, args, st, m, lambda p, q: And(p, q))
+    E.pm_intersection = pm_intersection
+
+    def pm_union(self, recv, args, node, st, m):
+        return self._pm_setop(recv, args, st, m, lambda p, q: Or(p, q))
+    E.pm_union = pm_union
+
+    def pm_difference(self, recv, args, node, st, m):
+        return self._pm_setop(recv, args, st, m, lambda p, q: And(p, Not(q)))
+    E.pm_difference = pm_difference
+
+    def pm_symmetric_difference(self, recv, args, node, st, m):
+        return self._pm_setop(recv, args, st, m, lambda p, q: p != q)
+    E.pm_symmetric_difference = pm_symmetric_difference
+    E._pm_setop = _pm_setop
 
     def pm_issubset(self, recv, args, node, st, m):
         a, b = self.as_set(recv, st), self.as_set(args[0], st)
@@ -3225,6 +3261,15 @@ def _patch_calls():
                            lambda st2: k(NONE, self.hset(st2, "$set", recv.t, Store(s, x, False))))
     E.bm_set_remove = bm_set_remove
 
+    def bm_set_pop(self, recv, args, node, st, ctx, k):
+        ss = self.hget(st, "$set", recv.t)
+        def cont(st2):
+            r = self.fresh("popped", V)       # an arbitrary member
+            st3 = st2.assume(Select(ss, r))
+            k(SV("v", r, None), self.hset(st3, "$set", recv.t, Store(ss, r, False)))
+        self.branch_checks([(self.set_nonempty(ss), "KeyError", node)], st, ctx, cont)
+    E.bm_set_pop = bm_set_pop
+
     def bm_set_clear(self, recv, args, node, st, ctx, k):
         k(NONE, self.hset(st, "$set", recv.t, K(V, False)))
     E.bm_set_clear = bm_set_clear
@@ -3405,10 +3450,10 @@ def _patch_calls():
         names, defaults = self.callee_params(fnc)
         env = {}
         pos = list(args)
-        if fnc.cls and names and names[0] in ("self", "cls"):
+        if names and names[0] in ("self", "cls") and (fnc.cls or recv is not None):
             if recv is None:
                 recv = pos.pop(0)
-            env[names[0]] = SV("v", recv.t, fnc.cls if recv.hint not in CLASSES else recv.hint)
+            env[names[0]] = SV("v", recv.t, (fnc.cls or fnc.types.get("self")) if recv.hint not in CLASSES else recv.hint)
             names = names[1:]
         for nm in names:
             if nm.startswith("*"):
